@@ -23,12 +23,6 @@ struct Data {
     cache: TranspositionTable,
 }
 
-impl Data {
-    fn mut_refs(&mut self) -> (&mut Option<Game>, &mut TranspositionTable) {
-        (&mut self.current_game, &mut self.cache)
-    }
-}
-
 /// Enter uci mode and wait for commands
 ///
 /// Specification of UCI standard source
@@ -96,6 +90,13 @@ pub fn uci_talk() -> anyhow::Result<()> {
                     if search_is_running.load(Relaxed) {
                         println!("error: search is still running, enter 'stop' to stop it");
                     } else {
+                        // The previous search may be over (flag lowered by its timer) without
+                        // having announced its move yet: let it finish first, two searches
+                        // must never overlap
+                        if let Some(thread) = search_thread.take() {
+                            thread.join().unwrap();
+                        }
+
                         // Create new bool such that if the old sleep threaed is still runnning
                         // it won't affect this new search
                         search_is_running = Arc::new(AtomicBool::new(false));
@@ -273,6 +274,11 @@ fn command_go(
         }
     }
 
+    // The search owns the game it was asked about: a time-limited search can be over
+    // (flag lowered by the timer) before its thread has even started, and the next
+    // 'position' or 'ucinewgame' must not change or remove the game under it
+    let game = data.current_game.take().unwrap();
+
     let thread = thread::spawn({
         #[cfg(daniel729_chess_verif)]
         crate::verif_hooks::will_spawn();
@@ -285,14 +291,8 @@ fn command_go(
             crate::verif_hooks::point_lock("search_lock", &*data_mutex);
             let best_move = {
                 let mut data = data_mutex.lock().unwrap();
-                let (current_game, cache) = data.mut_refs();
-                let best_move = get_best_move_until_stop(
-                    current_game.as_mut().unwrap(),
-                    cache,
-                    &search_is_running,
-                    depth,
-                );
-                *current_game = None;
+                let best_move =
+                    get_best_move_until_stop(&game, &mut data.cache, &search_is_running, depth);
                 #[cfg(daniel729_chess_verif)]
                 crate::verif_hooks::point("search_unlock");
                 best_move
